@@ -51,6 +51,10 @@ def S.init (n : Nat) : S := { st := .awake, file := none, wakes := 0, threads :=
 inductive Label where
   | sleep | wake
   | pollBegin (i : Nat) | pollInvoke (i : Nat) | pollReturn (i : Nat) | pollEnd (i : Nat)
+  /-- process restart at a quiescent point: a NEW Manager on the same data directory, `LoadState()`,
+      then (as `Agent.Start` does) `Sleep()` if the loaded state is SLEEPING — which is refused, the
+      state is already SLEEPING.  `graceful`: the old manager's `Stop()` ran first (it persists). -/
+  | restart (graceful : Bool)
   deriving DecidableEq, Repr
 
 /-- What a step returns to its caller. -/
@@ -68,6 +72,9 @@ inductive Event where
   | onPoll (i : Nat) (stale : Bool)
   | onPollEnd (i : Nat) (stale : Bool)
   deriving DecidableEq, Repr
+
+/-- `LoadState()`: the persisted state, or the initial AWAKE when there is no state file. -/
+def loaded (file : Option St) : St := file.getD .awake
 
 def setThread (l : List Thread) (i : Nat) (t : Thread) : List Thread := l.set i t
 
@@ -105,6 +112,11 @@ def step (s : S) : Label → S × Res × List Event
       else ({ s with st := .sleeping, file := some .sleeping, threads := setThread s.threads i { t with pc := .idle } },
             .ok, [.onPollEnd i (decide (s.wakes > t.epoch))])
     | none => (s, .disabled, [])
+  | .restart graceful =>
+    if !(s.threads.all fun t => t.pc == .idle) then (s, .disabled, [])
+    else
+      let file := if graceful then some s.st else s.file
+      ({ st := loaded file, file, wakes := 0, threads := s.threads.map fun _ => { pc := .idle, epoch := 0 } }, .ok, [])
 
 /-- Run a schedule; collect all events. -/
 def run (s : S) : List Label → S × List Event
